@@ -476,6 +476,12 @@ def appendJoin (l r : Logical) : Logical :=
   | l, .unit => l
   | l, r => .join l r
 
+/-- `build_logical_plan_from_subquery_in_scope`: a subquery starts a fresh variable scope, so a *variable* graph scope
+    is not carried onto its scans (the enclosing Graph operator supplies the active graph through the context) -/
+def subScope : GTerm → GTerm
+  | .var _ => .dflt
+  | s => s
+
 mutual
 /-- `build_logical_plan_from_group_in_scope`: graph scope carried onto the scans -/
 def lower (scope : GTerm) : Pat → Logical
@@ -489,7 +495,7 @@ def lower (scope : GTerm) : Pat → Logical
   | .filter c => .filter .unit c
   | .bind args out => .bind .unit args out
   | .values vars rows => .values vars rows
-  | .sub p spec => .subquery (lower scope p) spec
+  | .sub p spec => .subquery (lower (subScope scope) p) spec
 
 def lowerGroup (scope : GTerm) (plan : Logical) : List Pat → Logical
   | [] => plan
